@@ -451,8 +451,10 @@ def other_steps_prelim(rng, res):
         after = sorted(os.listdir(root))
         mats = [["m0", sha_of("material\n")]]
         own = {"materials": mats, "signer": k.keyid, "intact": True}
-        mm = core.driver().call({"op": "record_stop", "key": k.keyid, "prelim": own if both else None, "given": extras_for_model({}),
-                                 "products": [["p0", sha_of("product\n")]], "prelims": [own] if both else []})
+        # which files of the directory count for this step is the model's `selectsPrelim` (theorems selectsPrelim_own / _other)
+        selected = core.driver().call({"op": "prelim_select", "step": mine, "files": before})["ok"]
+        mm = core.driver().call({"op": "record_stop", "key": k.keyid, "prelim": own if selected else None, "given": extras_for_model({}),
+                                 "products": [["p0", sha_of("product\n")]], "prelims": [own] * len(selected)})
         m = "ok" if "ok" in mm else mm["err"]
         agreed = outcome == m
         case = {"op": "other_steps_prelim", "stop_of": mine, "in_flight": [other] + ([mine] if both else []), "key": "gpg"}
